@@ -456,6 +456,9 @@ Unfrozen(S, op, ord) ==
     [] op.name = "largest_connected_hypergraph" -> LargestCCInPlace(S)
     [] op.name = "set_net_attr" -> {Ok([S EXCEPT !.gattr = Put(@, op.k, op.v)])}
     [] op.name = "freeze" -> {Ok([S EXCEPT !.frozen = TRUE])}
+    \* the history continues on a copy / constructor copy / pickle of the network while the original is edited
+    \* behind its back: the copy is the network that was copied
+    [] op.name = "fork" -> {Ok(IF op.s1 = "constructor" THEN [S EXCEPT !.uid = 0] ELSE S)}  \* a rebuilt network starts from the ids it holds
 
 \* C18: on a frozen network a structural call is rejected and changes nothing;
 \* a call that would not change the structure anyway may also just return.
